@@ -35,6 +35,7 @@ type schedule struct {
 	txPerBlock  int
 	lateCheckIn bool // keyper 2 is not scheduled until two blocks after the eon started: its check-in comes late, the others send its evaluations as a second batch
 	downtime    int  // after the crash the keyper stays down for this many rounds before it is restarted
+	joiner      int  // 1+index of a keyper that is not in the genesis keyper set: it joins with keyper set 1, the only set it is a member of (0: none); it is the keyper that crashes
 	rerun       bool // the first key generation fails (keyper 2 silent, keyper 1 pauses through its dealing phase) and shuttermint starts a second one
 	byz         bool // keyper 2 is played by the harness: wrong evaluation for keyper 0, false accusation of keyper 0, no apology (keyper 1 is a bystander of both accusations, keyper 0 accuses and apologises)
 }
@@ -57,6 +58,10 @@ var schedules = []schedule{
 	// schedule 5: one keyper checks in only after the key generation has begun, so the dealers'
 	// evaluations leave in two batches (crash consistency of the outbox with several messages of one kind)
 	{name: "late-check-in", phaseLen: 10, lateCheckIn: true, downtime: 4},
+	// schedule 6: as failed-then-rerun, but the crashing keyper joined with keyper set 1 (it is not
+	// in the genesis set): after its restart the second key generation starts without a new
+	// configuration being announced
+	{name: "joiner-failed-then-rerun", phaseLen: 6, byz: true, rerun: true, joiner: 1},
 }
 
 type crashPoint struct {
@@ -68,16 +73,16 @@ type crashPoint struct {
 }
 
 // rtAtRound[sc][k][r]: round trips keyper k had issued when round r of the crash-free run began
-var rtAtRound [6][3][]int
+var rtAtRound [7][3][]int
 
 // eonStartHeight[sc]: height at which eon 1 started in the crash-free run
-var eonStartHeight [6]int64
+var eonStartHeight [7]int64
 
 var (
 	points  []crashPoint
-	twin    [6]*outcome
-	censusR [6][3]int
-	censusC [6][3][]int // committing round-trip indices per keyper
+	twin    [7]*outcome
+	censusR [7][3]int
+	censusC [7][3][]int // committing round-trip indices per keyper
 )
 
 const (
@@ -111,6 +116,7 @@ func main() {
 			agg.Require("runs_block-per-transaction", 50)
 			agg.Require("runs_block-per-round-with-accusations", 50)
 			agg.Require("runs_failed-then-rerun", 50)
+			agg.Require("runs_joiner-failed-then-rerun", 50)
 			agg.Require("runs_crash-then-downtime", 50)
 			agg.Require("runs_late-check-in", 50)
 			agg.Require("outbox_deletions_checked_against_the_chain", 1000)
@@ -163,6 +169,9 @@ func prepare(env *vlib.Env) (int, error) {
 			}
 			if !env.Thorough {
 				keypers = []int{int(env.Seed % 2)}
+			}
+			if schedules[sc].joiner > 0 {
+				keypers = []int{schedules[sc].joiner - 1}
 			}
 		}
 		if schedules[sc].byz && !schedules[sc].rerun {
@@ -379,7 +388,9 @@ func run(ctx context.Context, env *vlib.Env, sc int, cp *crashPoint) *outcome {
 	if schedules[sc].byz {
 		honest = []bool{true, true, false}
 	}
+	dkgsim.GenesisExcludes = schedules[sc].joiner - 1
 	s, err := dkgsim.NewSim(ctx, env.Seed, nKeypers, thresh, schedules[sc].phaseLen, honest)
+	dkgsim.GenesisExcludes = -1
 	if err != nil {
 		o.violation, o.vdetail = "setup", map[string]any{"error": err.Error()}
 		return o
